@@ -393,6 +393,17 @@ where
             // first call is running
             self.state.response.set(Some(resp));
 
+            // start the call before spawning it, so that in-flight limits
+            // see this request when readiness is checked for the next one
+            if let Poll::Ready(res) = Pin::new(&mut fut).poll(cx) {
+                if let Err(err) = res {
+                    self.state.error.set(Some(IoDispatcherError::Service(err)));
+                } else {
+                    queue.push_back(ServiceResult::Ready(res));
+                }
+                return;
+            }
+
             let response_idx = self.state.base.get().wrapping_add(queue.len());
             queue.push_back(ServiceResult::Pending);
 
